@@ -39,6 +39,13 @@ func toolCorpus(c *ctx, dir string, stream string, nf, np, ns int, o prog.GenOpt
 			writeFile(filepath.Join(dir, rel, fn), sf.Src)
 			tp.Files = append(tp.Files, fn)
 		}
+		if i%3 == 1 {
+			// an in-package test file (no directive in it) that declares, at package
+			// level, a name the generated code would otherwise import a package
+			// under: only the package's test variant sees it
+			writeFile(filepath.Join(dir, rel, "zz_test.go"), "package "+name+"\n\nvar debug = 0\n\nvar _ = debug\n")
+			tp.Feature = "test-file-declares-debug"
+		}
 		pkgs = append(pkgs, tp)
 	}
 	// Every input must type-check under the cff tag: a package that does not is
